@@ -427,3 +427,88 @@ c07_proof!(c07_bounds_b4, 1.1, 1.3);
 c07_proof!(c07_bounds_b5, 1.3, 1.6);
 c07_proof!(c07_bounds_b6, 1.6, 2.0);
 c07_proof!(c07_bounds_ball, 1.00001, 2.0);
+
+// =====================================================================================
+// C06 — monotonicity clause only: the cardinality estimate never decreases when registers grow
+// =====================================================================================
+
+pub(crate) fn ln_1p_const_b1001(_x: f64) -> f64 {
+    // ln(1.001), the value for the documented default b (the estimator calls ln_1p(b - 1) per register)
+    0.0009995003330835331
+}
+pub(crate) fn exp_mono_stub(x: f64) -> f64 {
+    // memoised monotone non-decreasing, positive and finite on the arguments used here (x <= 0)
+    let r = mono_pos::call(x);
+    r
+}
+pub(crate) mod mono_pos {
+    pub const CAP: usize = 8;
+    pub static mut N: usize = 0;
+    pub static mut ARG: [f64; CAP] = [0.0; CAP];
+    pub static mut RES: [f64; CAP] = [0.0; CAP];
+    pub fn call(x: f64) -> f64 {
+        unsafe {
+            let r: f64 = kani::any();
+            kani::assume(r > 0.0 && r <= 1.0);
+            macro_rules! consistent {
+                ($i:expr) => {
+                    if $i < N {
+                        if ARG[$i] == x {
+                            return RES[$i];
+                        }
+                        if ARG[$i] < x {
+                            kani::assume(RES[$i] <= r);
+                        }
+                        if ARG[$i] > x {
+                            kani::assume(RES[$i] >= r);
+                        }
+                    }
+                };
+            }
+            consistent!(0);
+            consistent!(1);
+            consistent!(2);
+            consistent!(3);
+            consistent!(4);
+            consistent!(5);
+            consistent!(6);
+            consistent!(7);
+            assert!(N < CAP);
+            ARG[N] = x;
+            RES[N] = r;
+            N += 1;
+            r
+        }
+    }
+}
+
+fn c06_monotone<const M: usize>() {
+    let (b, a, lnb) = (1.001, 20.0, 0.0009995003330835331);
+    let mut x: Ss16 = literal_ss(b, M, a, 65534, lnb);
+    let mut y: Ss16 = literal_ss(b, M, a, 65534, lnb);
+    for i in 0..M {
+        x.k_vec[i] = kani::any();
+        y.k_vec[i] = kani::any();
+        kani::assume(x.k_vec[i] <= y.k_vec[i]);
+    }
+    let (cx, _) = x.get_cardinal_stats();
+    let (cy, _) = y.get_cardinal_stats();
+    assert!(cx.is_finite() && cy.is_finite() && cx > 0.0);
+    assert!(cx <= cy);
+    kani::cover!(cx < cy, "witness: strictly larger estimate");
+}
+
+#[kani::proof]
+#[kani::stub(f64::ln_1p, ln_1p_const_b1001)]
+#[kani::stub(f64::exp, exp_mono_stub)]
+#[kani::unwind(4)]
+fn c06_monotone_m2() {
+    c06_monotone::<2>();
+}
+#[kani::proof]
+#[kani::stub(f64::ln_1p, ln_1p_const_b1001)]
+#[kani::stub(f64::exp, exp_mono_stub)]
+#[kani::unwind(5)]
+fn c06_monotone_m3() {
+    c06_monotone::<3>();
+}
